@@ -40,6 +40,18 @@ def gen_template(rng, toks, length, profile="mixed", kind_hint=None):
                 ops += [("put", a, "text/calendar", t1, "none"), ("del", a, "none"), ("put", b, "text/calendar", t1, "none"),
                         ("put", a, "text/calendar", t2, "none")]
                 continue
+        if profile == "mixed" and rng.random() < 0.05:
+            # bytes that are no calendar/card, first stored as an opaque attachment (nothing validates
+            # text/plain), then offered under a calendar/card name: the second upload must be refused
+            if rng.random() < 0.5:
+                bad, target, ct = rng.choice(bad_card), rng.choice(NAMES_VCF), "text/vcard"
+            else:
+                bad, target, ct = rng.choice(bad_ical), rng.choice(NAMES_ICS), "text/calendar"
+            ops += [("put", rng.choice(NAMES_OTHER), rng.choice(["text/plain", "application/octet-stream"]), bad, "none"),
+                    ("put", target, ct, bad, "none")]
+            continue
+        if profile in ("mixed", "uid", "sync", "cond", "meta") and rng.random() < 0.06:
+            ops.append(("switch",))       # the other worker of a two-worker deployment takes over
         if profile == "meta" and r < 0.45:
             key = rng.choice(["displayname", "description", "color", "comment", "order"])
             val = rng.choice(meta_vals) if rng.random() < 0.9 else None
